@@ -539,6 +539,9 @@ func execSim(op Op, env *Env) *Outcome {
 	var d *simfs.Disk
 	var infos []simrt.TaskInfo
 	t0 := time.Now()
+	var retAtEnd, atEnd bool
+	var errAtEnd error
+	var bufAtEnd, segsAtEnd, visitsAtEnd, wnAtEnd int
 	func() {
 		defer func() {
 			if p := recover(); p != nil {
@@ -653,6 +656,9 @@ func execSim(op Op, env *Env) *Outcome {
 				}
 			})
 			run.Loop()
+			retAtEnd, errAtEnd = out.Returned, out.Err
+			bufAtEnd, segsAtEnd, visitsAtEnd, wnAtEnd = len(wr.buf), len(wr.segs), len(cb.visits), wr.n
+			atEnd = true
 			// goroutines that exist now, were not there before the call and are not tasks of the
 			// simulator: started by library code the instrumenter does not see (package context
 			// watching a foreign context type, for instance)
@@ -666,9 +672,21 @@ func execSim(op Op, env *Env) *Outcome {
 				out.Races = rdet.reports()
 				out.Probes["race.accesses-checked"] += run.RaceAccesses()
 			}
+			// everything has been recorded: let goroutines that sit in a stalled stub unwind
+			// (the stub reports an error), so that they do not stay in the process for ever
+			run.ReleaseStalled()
 		})
 	}()
 	out.WallNS = time.Since(t0).Nanoseconds()
+	if atEnd {
+		// what happened after the release is not part of the run
+		out.Returned, out.Err = retAtEnd, errAtEnd
+		wr.buf, wr.segs, wr.n = wr.buf[:bufAtEnd], wr.segs[:segsAtEnd], wnAtEnd
+		cb.visits = cb.visits[:visitsAtEnd]
+		if len(cb.ptrs) > visitsAtEnd {
+			cb.ptrs = cb.ptrs[:visitsAtEnd]
+		}
+	}
 	collect(out, rd, wr, cb, d)
 	if out.Returned && out.Err == nil {
 		var late []string
